@@ -360,11 +360,17 @@ class DataFrameSchemaBackend(PolarsSchemaBackend):
         if not (schema.strict or schema.ordered):
             return check_obj
 
+        # strictness and order are schema-level constraints: they are not
+        # enforced when only the data is validated
+        schema_level = (
+            get_config_context().validation_depth != ValidationDepth.DATA_ONLY
+        )
+
         filter_out_columns = []
         sorted_column_names = iter(column_info.sorted_column_names)
         for column in column_info.destuttered_column_names:
             is_schema_col = column in column_info.expanded_column_names
-            if schema.strict is True and not is_schema_col:
+            if schema_level and schema.strict is True and not is_schema_col:
                 raise SchemaError(
                     schema=schema,
                     data=check_obj,
@@ -383,7 +389,7 @@ class DataFrameSchemaBackend(PolarsSchemaBackend):
                     next_ordered_col = next(sorted_column_names)
                 except StopIteration:
                     pass
-                if next_ordered_col != column:
+                if schema_level and next_ordered_col != column:
                     raise SchemaError(
                         schema=schema,
                         data=check_obj,
